@@ -192,7 +192,7 @@ SM_ARNS = [M1, M2, sm_arn("zz"), "not-an-arn", EX1, ABSENT, "", sm_arn("m1", reg
            "arn:aws:states:local:abc:stateMachine:m1", ROLE1, sm_arn("m" * 230), sm_arn("m1", account="999"), "arn:aws:states:local:0123456789:stateMachine:"]
 EX_ARNS = [EX1, EX2, EX3, ex_arn("m1", "nope"), "not-an-arn", M1, ABSENT, "", EX4, "arn:aws:states:local:0123456789:execution:"]
 FILTERS = [ABSENT, "RUNNING", "SUCCEEDED", "FAILED", "BOGUS", "", "TIMED_OUT", "ABORTED", "running"]
-EXEC_NAMES = [ABSENT, "x1", None, "a b", "m" * 81, "", "m" * 80]
+EXEC_NAMES = [ABSENT, "x1", None, "e1", "a b", "m" * 81, "", "m" * 80, "e2"]      # e1 / e2: names of recorded executions of m1 (RUNNING / SUCCEEDED)
 INPUTS = [ABSENT, '{"k": 1}', "nope", "", "[1, 2]"]
 WRONG_TYPED = [5, [1], {"a": 1}, True]
 ACTIONS = list(ref.ACTIONS)
